@@ -23,6 +23,7 @@ type C08Case struct {
 	Mode    string   `json:"mode"`  // A (multistream) | B (member by member)
 	BufSrc  int      `json:"buf_src"`
 	Reads   []int    `json:"reads"`
+	Reuse   bool     `json:"reuse,omitempty"` // all members written by ONE gzip Writer, Reset between members
 }
 
 func drawC08(t *rapid.T) C08Case {
@@ -52,13 +53,25 @@ func drawC08(t *rapid.T) C08Case {
 		}
 	}
 	c.BufSrc = rapid.SampledFrom([]int{16, 17, 64, 512, 4096, 4097, 65536}).Draw(t, "bufsrc")
+	if rapid.IntRange(0, 2).Draw(t, "reusewriter") == 0 {
+		c.Reuse = true
+		for i := range c.Members {
+			c.Members[i].Enc, c.Members[i].Level = c.Members[0].Enc, c.Members[0].Level
+		}
+	}
 	c.Reads = drawReadSizes(t)
 	return c
 }
 
 func checkC08(c C08Case) (labels []string, nontrivial bool, err error) {
 	defer guardPanic(&err)
-	z, bounds, payload, err := buildMembers("gzip", c.Members)
+	var z, payload []byte
+	var bounds []int
+	if c.Reuse {
+		z, bounds, payload, err = buildMembersReused(c.Members)
+	} else {
+		z, bounds, payload, err = buildMembers("gzip", c.Members)
+	}
 	if err != nil {
 		return nil, false, err
 	}
@@ -141,6 +154,9 @@ func checkC08(c C08Case) (labels []string, nontrivial bool, err error) {
 	if len(c.Trail) > 0 {
 		labels = append(labels, "trailing-data")
 	}
+	if c.Reuse {
+		labels = append(labels, "members-written-by-one-reused-writer")
+	}
 	return labels, len(c.Members) >= 2, nil
 }
 
@@ -167,4 +183,34 @@ func init() {
 		_, _, err := checkC08(c)
 		return err
 	}
+}
+
+// buildMembersReused writes all members with one gzip Writer (settings of the first member), Reset between members.
+func buildMembersReused(ms []Member) (z []byte, bounds []int, payload []byte, err error) {
+	defer guardPanic(&err)
+	var w anyWriter
+	for i, m := range ms {
+		var b bytes.Buffer
+		if i == 0 {
+			w, err = newContainerWriter("gzip", m.Enc, &b, m.Level, m.Hdr, nil)
+			if err != nil {
+				return nil, nil, nil, err
+			}
+		} else {
+			w.Reset(&b)
+			if gz, ok := w.(*fgzip.Writer); ok {
+				applyHdr(m.Hdr, &gz.Name, &gz.Comment, &gz.Extra, &gz.ModTime, &gz.OS)
+			}
+			if gz, ok := w.(*stdgzip.Writer); ok {
+				applyHdr(m.Hdr, &gz.Name, &gz.Comment, &gz.Extra, &gz.ModTime, &gz.OS)
+			}
+		}
+		if e := writeMemberOps(w, m.Data.Bytes(), m.Ops); e != nil {
+			return nil, nil, nil, fmt.Errorf("member %d: %v", i+1, e)
+		}
+		z = append(z, b.Bytes()...)
+		bounds = append(bounds, len(z))
+		payload = append(payload, m.Data.Bytes()...)
+	}
+	return
 }
